@@ -28,6 +28,21 @@ pub fn stream_file(name: &str) -> Vec<u8> {
     let vcf = gen::vcf_text(&cols, &recs, true);
     match name {
         "npy_ok" => fam_npy::assemble(1, header, &data),
+        // one- and two-byte items: an item may be complete in a buffer that holds nothing else
+        "npy_u1" => {
+            let h = format!("{:<117}\n", "{'descr': '|u1', 'fortran_order': False, 'shape': (24,), }");
+            fam_npy::assemble(1, &h, &(0..24u8).map(|i| i.wrapping_mul(37).wrapping_add(9)).collect::<Vec<u8>>())
+        }
+        "npy_i2" => {
+            let h = format!("{:<117}\n", "{'descr': '<i2', 'fortran_order': False, 'shape': (3, 4), }");
+            let mut d = Vec::new();
+            for i in 0..12i16 { d.extend_from_slice(&(i * 1237 - 5000).to_le_bytes()); }
+            fam_npy::assemble(1, &h, &d)
+        }
+        "npy_u1_short" => {
+            let h = format!("{:<117}\n", "{'descr': '|u1', 'fortran_order': False, 'shape': (24,), }");
+            fam_npy::assemble(1, &h, &(0..23u8).collect::<Vec<u8>>())
+        }
         "npy_midvalue" => { let mut b = fam_npy::assemble(1, header, &data); b.truncate(b.len() - 3); b }
         "npy_short" => { let mut b = fam_npy::assemble(1, header, &data); b.truncate(b.len() - 8); b }
         "npy_header_cut" => { let mut b = fam_npy::assemble(1, header, &data); b.truncate(60); b }
